@@ -542,6 +542,13 @@ def main(argv):
         if len(argv) >= 2 and argv[0] == "replay":
             build()
             hit = do_replay(argv[1])
+            if not hit and json.load(open(argv[1])).get("repeat", 1) > 1:
+                # a non-determinism shows only with some probability per attempt
+                for k in range(6):
+                    log("attempt %d did not show it; replaying again" % (k + 1))
+                    hit = do_replay(argv[1], quiet=True)
+                    if hit:
+                        break
             log("REPRODUCED" if hit else "NOT REPRODUCED")
             return 1 if hit else 0
         if len(argv) >= 1 and argv[0] == "selfcheck":
